@@ -719,6 +719,7 @@ PARTIAL = ("never-older and same-set-same-state hold in full for gossip ingestio
            "F4-leasepath, F4-recovery); the quiescence clause is refuted as stated (three nodes: C06-sir; restart: "
            "C06-restart; pinned upstream store on two nodes: F5, fixed) and proved for two nodes without restart "
            "(C06_quiescent_two_nodes_partial)")
+SRC_SPECS = ["version"]     # translator/specs/version.json -> Generated/Src_Version.v (regenerated on every run)
 READY = True
 TECHNIQUE = ("Coq proof (LWW join: order/duplication/batching independence by induction over operation lists; LTS invariant "
              "over all step kinds; two-node quiescence invariant) + model/impl correspondence by vm_compute")
